@@ -418,8 +418,11 @@ WsView WalletSim::View() const
     v.trusted = bal.m_mine_trusted;
     v.untrusted_pending = bal.m_mine_untrusted_pending;
     v.immature = bal.m_mine_immature;
+    // every production caller passes a coin control: with the default filter (check_version_trucness) a null pointer is dereferenced as soon as
+    // the wallet holds an unconfirmed coin (wallet/spend.cpp, "coinControl->m_version")
+    const wallet::CCoinControl cc;
     LOCK(w->cs_wallet);
-    for (const wallet::COutput& c : wallet::AvailableCoins(*w).All()) v.available[c.outpoint] = c.txout.nValue;
+    for (const wallet::COutput& c : wallet::AvailableCoins(*w, &cc).All()) v.available[c.outpoint] = c.txout.nValue;
     return v;
 }
 
